@@ -1320,7 +1320,7 @@ func c35script(t *rapid.T, erec *ev.Rec, l *lang) {
 
 // TestC35: record rules always reflect current field values.
 func TestC35(t *testing.T) {
-	rec := ev.New("C35", "rapid-generated worlds of 2-5 plain fields and 1-4 rule fields whose rules are generated pure Suneido functions (arithmetic, $, is/isnt, </>=, ?:, if/else, and/or/not over plain fields and earlier rule fields: chains, diamonds, conditional dependencies), attached with AttachRule or defined as Rule_ globals; scripts of 10-40 operations (set, get, Delete of plain and rule fields, Copy, Invalidate of one or two fields, Observer of three kinds, RemoveObserver, Set_readonly) on up to three records, each through compiled Suneido code or the Go API of core.SuRecord, ending with a get of every field of every record. Half of the worlds are wide: 6-10 small rules, 75% of them reading the hub field p0 (3-7 dependents on one field), 20-55 operations on a family of up to four records copied mid-history (Copy or Slice(0)), gets biased to rules the record has not evaluated yet, sets biased to the hub; each record is modelled independently. Oracle: the rule expressions evaluated recursively by the model's own evaluator on the model's current plain values; observers: every observer registered on the record is told about the field that changed / was passed to Invalidate and about every rule field that had been evaluated, not been touched since, and whose evaluation read the field (directly or through other rule fields); observers not registered on the record are never called; a reading observer sees current values; GetDeps lists everything the evaluation read. Non-trivial: a script in which a rule field that had been evaluated was read again after a field it used changed (or it was invalidated); distinct = by rendered script.")
+	rec := ev.New("C35", "rapid-generated worlds of 2-5 plain fields and 1-4 rule fields whose rules are generated pure Suneido functions (arithmetic, $, is/isnt, </>=, ?:, if/else, and/or/not over plain fields and earlier rule fields: chains, diamonds, conditional dependencies), attached with AttachRule or defined as Rule_ globals; scripts of 10-40 operations (set, get, Delete of plain and rule fields, Copy, Invalidate of one or two fields, Observer of three kinds, RemoveObserver, Set_readonly) on up to three records, each through compiled Suneido code or the Go API of core.SuRecord, ending with a get of every field of every record. Half of the worlds are wide: 6-10 small rules, 75% of them reading the hub field p0 (3-7 dependents on one field), 20-55 operations on a family of up to four records copied mid-history (Copy or Slice(0)), gets biased to rules the record has not evaluated yet, sets biased to the hub; each record is modelled independently. A quarter of the scripts start from a stored record: r0 built with SuRecordFromRow from a row holding base fields, previously computed rule values and their <rule>_deps columns (valid saved results with exactly the stored dependencies); its first four operations are plain gets, Delete/Erase, sets, observers, Invalidate, Copy. Oracle: the rule expressions evaluated recursively by the model's own evaluator on the model's current plain values; observers: every observer registered on the record is told about the field that changed / was passed to Invalidate and about every rule field that had been evaluated, not been touched since, and whose evaluation read the field (directly or through other rule fields); observers not registered on the record are never called; a reading observer sees current values; GetDeps lists everything the evaluation read. Non-trivial: a script in which a rule field that had been evaluated was read again after a field it used changed (or it was invalidated); distinct = by rendered script.")
 	rec.Assumptions = []string{
 		"model written from suneidoc Database/Rules.md and Database/Reference/Record/*.md, not from core/surecord.go",
 		"rule fields are never assigned directly and PreSet is not used (what then holds is not stated)",
